@@ -196,8 +196,11 @@ func CheckTable(d *FileDump, e *ExpTable, srs *SRS) *Mismatch {
 		if en.ID != w.id {
 			return mm("rtree", "table %q: spatial index entry %d has id %d, want %d", e.Name, i, en.ID, w.id)
 		}
-		okLo := func(stored, v float64) bool { return stored <= v && v-stored <= 2*ulp32(v) }
-		okHi := func(stored, v float64) bool { return stored >= v && stored-v <= 2*ulp32(v) }
+		// SQLite's R*Tree keeps 32-bit floats and rounds outwards by multiplying with
+		// (1 +/- 2^-23) before converting, so a bound may lie a few float32 ulps outside
+		tol := func(v float64) float64 { return math.Abs(v)/float64(1<<21) + 4*ulp32(v) }
+		okLo := func(stored, v float64) bool { return stored <= v && v-stored <= tol(v) }
+		okHi := func(stored, v float64) bool { return stored >= v && stored-v <= tol(v) }
 		if !okLo(en.MinX, w.box[0]) || !okLo(en.MinY, w.box[1]) || !okHi(en.MaxX, w.box[2]) || !okHi(en.MaxY, w.box[3]) {
 			return mm("rtree", "table %q: spatial index entry for id %d is [%v %v %v %v], bbox is %v", e.Name, w.id, en.MinX, en.MinY, en.MaxX, en.MaxY, w.box)
 		}
